@@ -86,6 +86,7 @@ func main() {
 	genUPNP(cl, rng.Fork(), scale)
 	genOther(cl, rng.Fork(), scale)
 	genEnumSweep(cl, rng.Fork())
+	genIDNA(cl, rng.Fork())
 	genSeq(cl, rng.Fork(), scale)
 	if r.Thorough() {
 		genExhaustive(cl, 3) // all strings of length <= 3 over 6 symbols, per decoder
